@@ -244,7 +244,7 @@ def taper1Minl (l : K) (n : Nat) (minT : K) (maxT : Option K) : Except TaperErr 
       match taper1Search l mx eps n (n - 1) with
       | .error e => .error e
       | .ok nminl =>
-        if ¬ (maxl < nminl) then .error (.assertion "nminl > maxl")
+        if ¬ (maxl < nminl + eps) then .error (.assertion "nminl + eps > maxl")
         else .ok (if minl0 < nminl then nminl else minl0, eps)
     else .ok (minl0, eps)
 
@@ -316,8 +316,8 @@ def taper2Search (l mx eps : K) (n : Nat) : Nat → Nat → Except TaperErr K
       else
         let last := ((2 ^ (k / 2 - 1) : Nat) : K) * nminl
         let vlen := p * nminl
-        if last ≤ x ∧ x ≤ ((2 : Nat) : K) * last ∧ l ≤ ((n - k : Nat) : K) * x + vlen + eps then .ok nminl
-        else if ¬ (x ≤ ((2 : Nat) : K) * last) then .error (.assertion "x <= 2 * last")
+        if last ≤ x ∧ x ≤ ((2 : Nat) : K) * last + eps ∧ l ≤ ((n - k : Nat) : K) * x + vlen + eps then .ok nminl
+        else if ¬ (x ≤ ((2 : Nat) : K) * last + eps) then .error (.assertion "x <= 2 * last + eps")
         else taper2Search l mx eps n fuel (k - 2)
 
 def taper2Minl (l : K) (n : Nat) (minT : K) (maxT : Option K) : Except TaperErr (K × K) :=
@@ -337,7 +337,7 @@ def taper2Minl (l : K) (n : Nat) (minT : K) (maxT : Option K) : Except TaperErr 
       match taper2Search l mx eps n n (n - d) with
       | .error e => .error e
       | .ok nminl =>
-        if ¬ (maxl < nminl) then .error (.assertion "nminl > maxl")
+        if ¬ (maxl < nminl + eps) then .error (.assertion "nminl + eps > maxl")
         else .ok (if minl0 < nminl then nminl else minl0, eps)
     else .ok (minl0, eps)
 
